@@ -19,7 +19,8 @@ FD = _d.FieldDescriptor
 PROFILE = grammar.profile(
     paged_variants=True, p_list=1.0, p_get=0.3, p_create=0.1, p_update=0.1, p_delete=0.1, p_custom=0.15,
     p_sstream=0.0, p_cstream=0.0, p_bidi=0.0, p_lro=0.0, p_service_config=0.9, p_yaml=0.05,
-    p_second_file=0.5, p_shuffle_numbers=0.5, resources=(1, 3), transports=["grpc", "grpc+rest", "grpc+rest"], p_foreign_paged=0.2)
+    p_second_file=0.5, p_shuffle_numbers=0.5, resources=(1, 3), transports=["grpc", "grpc+rest", "grpc+rest"], p_foreign_paged=0.2,
+    p_mistyped_max_results=0.15)
 
 BUDGET = {
     "quick": {"worlds": 150, "runs": 120, "wall_cap": 300, "world_wall": 90},
